@@ -204,7 +204,7 @@ def _mk_binner(cfg, clf):
 class SPiecewiseRegressor(Spec):
     name = "PiecewiseRegressor"
     kind = "reg"
-    methods = (("predict", EXACT),)
+    methods = (("predict", TOL),)
     rowwise = ("predict",)
     has_n_jobs = True
 
@@ -222,7 +222,7 @@ class SPiecewiseRegressor(Spec):
 class SPiecewiseClassifier(Spec):
     name = "PiecewiseClassifier"
     kind = "clf"
-    methods = (("predict", EXACT), ("predict_proba", EXACT), ("decision_function", EXACT))
+    methods = (("predict", EXACT), ("predict_proba", TOL), ("decision_function", TOL))
     rowwise = ("predict", "predict_proba", "decision_function")
     has_n_jobs = True
 
